@@ -299,6 +299,8 @@ def run(rep, tier):
         clause_d(facts, rep)
         clause_e(facts, rep)
         clause_f(facts, rep)
+        clause_g(facts, rep)
+        clause_h(facts, rep)
     rep.trust('clang 14 front end and constant evaluator', 'Python big integers / fractions', 'Clinger exact fast-path conditions',
               'simd_str2int contract: the digit count it stores never exceeds the requested count')
     rep.assumptions += [
@@ -548,3 +550,224 @@ def clause_f(facts, rep):
         rep.check(not bad, 'E5.int-boundary', f.qn, '20th digit folded iff man*10+digit <= UINT64_MAX (%d (man, digit) pairs)' % cnt, locline(fs['loc']),
                   '; '.join(bad[:3]), facts.config)
     rep.require(n >= 1, 'C04.f: 20-digit fold statement not found in parseNumber')
+
+
+def clause_g(facts, rep):
+    """The converters that normalise the mantissa by its leading-zero count (LeadingZeroes / __builtin_clz of a
+    parameter - undefined for 0) are only called with a mantissa known to be non-zero: the requirement is derived
+    from the callee bodies, propagated through wrappers that pass their own parameter on, and at every remaining
+    call site the argument variable must be behind a test that implies != 0 (evaluated) with no write in between.
+    ("0." followed by many zeros reaches the slow paths with man == 0.)"""
+    from ..e2_dom import Must
+    from ..narrowing import _eval as ev1
+    need = {}       # function id -> set of parameter indices that must be non-zero
+    for f in facts.functions:
+        pid = {p['id']: k for k, p in enumerate(f.params)}
+        written = set()
+        for bid, i, st, e in f.walk():
+            if e.get('k') == 'bin' and e['op'].endswith('=') and e['op'] not in ('==', '!=', '<=', '>=') and strip(e['l']) is not None and strip(e['l']).get('id') in pid:
+                written.add(strip(e['l'])['id'])
+        for bid, i, st, e in f.walk():
+            if e.get('k') == 'call' and e.get('cname') in ('LeadingZeroes', '__builtin_clzll', '__builtin_clzl', '__builtin_clz') and e.get('args'):
+                a = strip(e['args'][0])
+                if a is not None and a.get('k') == 'ref' and a.get('id') in pid:
+                    # a write before the use does not remove the requirement when it preserves zero-ness (x <<= n); keep it simple: direct parameter use
+                    if a['id'] not in written or True:
+                        need.setdefault(f.id, set()).add(pid[a['id']])
+    rep.require(len(need) >= 2, 'C04.g: converters with a leading-zero count on a parameter found: %d' % len(need))
+    n = 0
+    changed = True
+    sites = []
+    while changed:
+        changed = False
+        sites = []
+        for f in facts.functions:
+            pid = {p['id']: k for k, p in enumerate(f.params)}
+            for bid, i, st, e in f.walk():
+                if e.get('k') != 'call' or e.get('cid') not in need:
+                    continue
+                args = e.get('args', [])
+                for k in need[e['cid']]:
+                    if k >= len(args):
+                        continue
+                    a = strip(args[k])
+                    if a is None or a.get('k') != 'ref':
+                        continue           # a computed argument (man + 1 ...) is not tracked
+                    sites.append((f, bid, i, e, a))
+    # decide the sites; a site whose variable is an unguarded parameter pushes the requirement to the callers
+        for f, bid, i, e, a in sites:
+            pid = {p['id']: k for k, p in enumerate(f.params)}
+            vid = a['id']
+
+            def gen_edge(b, cond, sense, vid=vid):
+                c = strip_expect(cond)
+                if c is None:
+                    return []
+                ids = set(y.get('id') for y in walk(c) if y.get('k') == 'ref' and y.get('dk') in ('local', 'param'))
+                if ids != {vid}:
+                    return []
+                try:
+                    sat = [v for v in (0, 1, 2, 3, 1 << 52, (1 << 52) + 1, (1 << 63), 2 ** 64 - 1) if bool(ev1(c, {vid: v})) == sense]
+                except KeyError:
+                    return []
+                return ['nz'] if 0 not in sat else []
+
+            def kill_stmt(st, vid=vid):
+                for y in walk(st):
+                    if y.get('k') == 'bin' and y['op'].endswith('=') and y['op'] not in ('==', '!=', '<=', '>=') and strip(y['l']) is not None and strip(y['l']).get('id') == vid:
+                        return ['nz']
+                    if y.get('k') == 'un' and y['op'] in ('++', '--') and strip(y['e']) is not None and strip(y['e']).get('id') == vid:
+                        return ['nz']
+                return []
+            M = Must(f, gen_edge=gen_edge, kill_stmt=kill_stmt)
+            st = M.at(bid, i)
+            if st is None:
+                continue
+            if 'nz' not in st and vid in pid and f.id not in need.get('_done', set()):
+                if pid[vid] not in need.get(f.id, set()):
+                    need.setdefault(f.id, set()).add(pid[vid])
+                    changed = True
+    seen = set()
+    for f, bid, i, e, a in sites:
+        pid = {p['id']: k for k, p in enumerate(f.params)}
+        vid = a['id']
+        if vid in pid and pid[vid] in need.get(f.id, set()):
+            continue        # the requirement was passed on to this function's callers
+        key = (f.qn, show(e)[:60])
+        if key in seen:
+            continue
+        seen.add(key)
+        # re-evaluate (cheap) for the report
+
+        def gen_edge(b, cond, sense, vid=vid):
+            c = strip_expect(cond)
+            if c is None:
+                return []
+            ids = set(y.get('id') for y in walk(c) if y.get('k') == 'ref' and y.get('dk') in ('local', 'param'))
+            if ids != {vid}:
+                return []
+            try:
+                sat = [v for v in (0, 1, 2, 3, 1 << 52, (1 << 52) + 1, (1 << 63), 2 ** 64 - 1) if bool(ev1(c, {vid: v})) == sense]
+            except KeyError:
+                return []
+            return ['nz'] if 0 not in sat else []
+
+        def kill_stmt(st, vid=vid):
+            for y in walk(st):
+                if y.get('k') == 'bin' and y['op'].endswith('=') and y['op'] not in ('==', '!=', '<=', '>=') and strip(y['l']) is not None and strip(y['l']).get('id') == vid:
+                    return ['nz']
+                if y.get('k') == 'un' and y['op'] in ('++', '--') and strip(y['e']) is not None and strip(y['e']).get('id') == vid:
+                    return ['nz']
+            return []
+        M = Must(f, gen_edge=gen_edge, kill_stmt=kill_stmt)
+        st = M.at(bid, i)
+        if st is None:
+            continue
+        rep.fn(f)
+        n += 1
+        rep.check('nz' in st, 'E2.nonzero-mantissa', f.qn, '%s != 0 at %s' % (a.get('name'), show(e)[:70]), locline(e['loc']),
+                  'the callee takes the leading-zero count of this argument (undefined for 0, and the result is not zero): a zero mantissa must have been returned as 0 before', facts.config)
+    rep.require(n >= 2, 'C04.g: call sites of the normalising converters decided: %d' % n)
+
+
+def clause_h(facts, rep):
+    """SetDecimal (big-decimal fallback): the position of the decimal point counts every integer digit, also those
+    that no longer fit into the digit buffer.  With the dot not yet seen (edges decided by evaluating the dot-flag
+    tests with the flag = 0), every path through the digit arm - except the one skipping a leading zero - increments
+    a variable that the decimal-point assignments read."""
+    from ..e2_dom import Must
+    from ..narrowing import _eval as ev1
+    n = 0
+    for f in facts.functions:
+        if f.short != 'SetDecimal':
+            continue
+        rep.fn(f)
+        # assignments  d->dp = <expr>  : variables/fields read there
+        feeds = set()
+        dp_assign = 0
+        for bid, i, st, e in f.walk():
+            if e.get('k') == 'bin' and e['op'] == '=' and strip(e['l']) is not None and strip(e['l']).get('k') == 'member' and strip(e['l']).get('name') == 'dp':
+                dp_assign += 1
+                for y in walk(e['r']):
+                    if y.get('k') == 'ref' and y.get('dk') == 'local':
+                        feeds.add(('v', y['id']))
+                    if y.get('k') == 'member' and y.get('name') != 'dp':
+                        feeds.add(('m', y['name']))
+        rep.require(dp_assign >= 2 and feeds, 'C04.h: decimal-point assignments of SetDecimal not found')
+        # the dot flag: local assigned 1 in the arm that also assigns dp
+        flag = None
+        for bid, B in f.blocks.items():
+            names = []
+            for st in B['stmts']:
+                s_ = strip(st)
+                if s_ is not None and s_.get('k') == 'bin' and s_['op'] == '=' and strip(s_['l']).get('k') == 'ref' and cval(s_['r']) == 1:
+                    names.append(strip(s_['l'])['id'])
+            if names and any(strip(st) is not None and strip(st).get('k') == 'bin' and strip(strip(st)['l']).get('name') == 'dp' for st in B['stmts']):
+                flag = names[0]
+        rep.require(flag is not None, 'C04.h: dot flag of SetDecimal not bound')
+        if flag is None:
+            continue
+        prune = set()
+        for bid, B in f.blocks.items():
+            t = B.get('term')
+            if t and t.get('cond') is not None and len(B['succs']) == 2:
+                c = strip_expect(t['cond'])
+                ids = set(y.get('id') for y in walk(c) if y.get('k') == 'ref' and y.get('dk') in ('local', 'param'))
+                if ids == {flag}:
+                    try:
+                        v = bool(ev1(c, {flag: 0}))
+                        dead = B['succs'][1] if v else B['succs'][0]
+                        if dead is not None:
+                            prune.add((bid, dead))
+                    except KeyError:
+                        pass
+
+        def is_feed_inc(y):
+            if y.get('k') == 'un' and y['op'] == '++':
+                t_ = strip(y['e'])
+                return t_ is not None and ((t_.get('k') == 'ref' and ('v', t_.get('id')) in feeds) or (t_.get('k') == 'member' and ('m', t_.get('name')) in feeds))
+            if y.get('k') == 'bin' and y['op'] == '+=' and (cval(y['r']) or 0) >= 1:
+                t_ = strip(y['l'])
+                return t_ is not None and ((t_.get('k') == 'ref' and ('v', t_.get('id')) in feeds) or (t_.get('k') == 'member' and ('m', t_.get('name')) in feeds))
+            return False
+
+        def gen_stmt(st):
+            out = []
+            if any(is_feed_inc(y) for y in walk(st)):
+                out.append('counted')
+            # the leading-zero skip adjusts dp itself
+            if any(y.get('k') == 'un' and y['op'] == '--' and strip(y['e']).get('k') == 'member' and strip(y['e']).get('name') == 'dp' for y in walk(st)):
+                out.append('counted')
+            return out
+        heads = [bid for bid, B in f.blocks.items() if B.get('term') and B['term'].get('cls') in ('ForStmt', 'WhileStmt')]
+
+        def kill_edge(b, cond, sense):
+            return ['counted'] if b in heads and sense is True else []
+        # digit arm: blocks dominated by the digit test; obligation at the loop increment (i++) reached from the digit arm
+        def gen_edge(b, cond, sense):
+            c = strip_expect(cond)
+            if c is not None and sense is True and c.get('k') == 'bin' and c['op'] == '<=' and cval(c['r']) == 57:
+                return ['digit']
+            return []
+        M = Must(f, gen_stmt=gen_stmt, gen_edge=gen_edge, kill_edge=kill_edge, prune=prune)
+        # the first digit loop only (the exponent loop has its own digits)
+        first_head = max(heads) if heads else None
+        for bid, B in f.blocks.items():
+            for i, st in enumerate(B['stmts']):
+                s_ = strip(st)
+                if s_ is not None and s_.get('k') == 'un' and s_['op'] == '++' and strip(s_['e']).get('k') == 'ref' and strip(s_['e']).get('name') == 'i' and B['succs'] == [first_head]:
+                    # several predecessors merge into the increment block: inspect each predecessor's exit state
+                    preds = [p for p, PB in f.blocks.items() if bid in [x for x in PB['succs'] if x is not None]]
+                    for p in preds:
+                        stp = M.IN.get(p)
+                        if stp is None or (p, bid) in prune:
+                            continue
+                        stp = set(stp)
+                        for x in f.blocks[p]['stmts']:
+                            stp |= set(gen_stmt(x))
+                        if 'digit' not in stp:
+                            continue
+                        n += 1
+                        rep.check('counted' in stp, 'E2.decimal-point', f.qn, 'digit arm ending at block %d moves the decimal point' % p, locline(s_['loc']),
+                                  'an integer digit that is not stored must still be counted for d->dp (the value is otherwise scaled down by a power of ten)', facts.config)
+    rep.require(n >= 2, 'C04.h: digit paths of SetDecimal decided: %d' % n)
